@@ -14,7 +14,7 @@ from fractions import Fraction
 from typing import Any, Dict, List, Optional, Tuple
 
 from rpv import ods_io
-from rpv.cli_core import cli_histories, cli_profile
+from rpv.cli_core import add_verbatim_duplicate, cli_histories, cli_profile
 from rpv.drive_cli import Workspace
 from rpv.drive_inproc import frac
 from rpv.gen import METHODS, parse_ts
@@ -27,7 +27,7 @@ RULE = (
     "non-numeric field, optional fields mapped or omitted, 0-5 unmapped junk columns with decoy numbers, any order of the "
     "IN/OUT/INTRA tables, 0-3 blank rows between tables, empty OUT/INTRA tables present or absent) x generated valid rows "
     "(all types, values with up to 11 decimals and 15 significant digits, optional cells filled or empty, crypto fees on "
-    "acquisitions); the real Configuration + parse_ods output is compared field by field with the ground truth: one "
+    "acquisitions, in a quarter of the cases a row repeated verbatim right below itself); the real Configuration + parse_ods output is compared field by field with the ground truth: one "
     "transaction per row (id = sheet row), documented defaults for empty optional cells, acquisition + artificial FEE row for "
     "crypto fees. Non-trivial = layout that is not the identity and rows whose mapped numeric cells are pairwise distinct; "
     "distinct = hash of (layout, rows)"
@@ -37,8 +37,8 @@ ASSUMPTIONS = [
     "the header line of every table does not parse as a transaction",
 ]
 SETTINGS: Dict[str, Dict[str, Any]] = {
-    "quick": {"cases": 1200, "cli_cases": 32, "budget_s": 60, "minimums": {"rows_checked": 8000, "fields_checked": 80000, "nontrivial": 250, "artificial_fee_rows": 150, "cli_pairs": 16}},
-    "thorough": {"cases": 30000, "cli_cases": 300, "budget_s": 420, "minimums": {"rows_checked": 80000, "fields_checked": 800000, "nontrivial": 3000, "artificial_fee_rows": 1500, "cli_pairs": 100}},
+    "quick": {"cases": 1200, "cli_cases": 32, "budget_s": 60, "minimums": {"rows_checked": 8000, "fields_checked": 80000, "nontrivial": 250, "artificial_fee_rows": 150, "cli_pairs": 16, "sheets_with_a_row_repeated_verbatim": 120}},
+    "thorough": {"cases": 30000, "cli_cases": 300, "budget_s": 420, "minimums": {"rows_checked": 80000, "fields_checked": 800000, "nontrivial": 3000, "artificial_fee_rows": 1500, "cli_pairs": 100, "sheets_with_a_row_repeated_verbatim": 1000}},
 }
 OPTIONAL_KEYS = {
     "IN": {"cfee": "crypto_fee", "fin_nf": "fiat_in_no_fee", "fin_wf": "fiat_in_with_fee", "ffee": "fiat_fee", "uid": "unique_id", "notes": "notes"},
@@ -207,6 +207,10 @@ def make_case(rng: random.Random) -> Dict[str, Any]:
             if rng.random() < 0.5:
                 # free text: plain, non-ASCII, quotes / separators, looks like a number or a table keyword, long
                 r["notes"] = rng.choice((f"note {i} of {hist['asset']}", f"caf\u00e9 \u2615 \u65e5\u672c {i}", f'"quoted", semi;colon, tab\there {i}', f"{i}", "TABLE END", "IN", f"x{i} " + "very long " * 30))
+    if rng.random() < 0.25:
+        # a row repeated verbatim right below itself is a second transaction ("no row is skipped")
+        for hist in hists.values():
+            add_verbatim_duplicate(rng, hist, rng.choice((("IN",), ("IN", "OUT", "INTRA"))))
     apply_layout_to_rows(hists, layout)
     return {"hists": hists, "layout": layout, "sheet_order": rng.sample(sorted(hists), len(hists)), "writer_seed": rng.randint(0, 10**9)}
 
@@ -252,6 +256,10 @@ def _one(ctx: Any, parser: Parser, case: Dict[str, Any], name: str) -> None:
         ctx.count("rows_checked", stats["rows"])
         ctx.count("fields_checked", stats["fields"])
         ctx.count("artificial_fee_rows", stats["artificial"])
+        for hist in hists.values():
+            cells = [tuple(sorted((k, str(v)) for k, v in r.items() if k != "row")) for r in hist["rows"]]
+            if len(set(cells)) < len(cells):
+                ctx.count("sheets_with_a_row_repeated_verbatim")
         ctx.tag("tag_table_order", "-".join(layout["table_order"]))
         ctx.tag("tag_blank_rows", str(layout["blank_rows"]))
         identity = all(layout["columns"][t] == {f: i for i, f in enumerate(ods_io.FIELDS[t])} for t in ods_io.FIELDS)
